@@ -3,6 +3,7 @@ package guardiansets
 import (
 	"context"
 	"fmt"
+	"math"
 	"sync"
 	"time"
 
@@ -174,6 +175,10 @@ func getGuardianSetsFromChain(ctx context.Context, contract *abi.Abi, fromIndex,
 			Keys:  res.Keys,
 			Index: index,
 		})
+		if index == math.MaxUint32 {
+			// index++ would wrap to 0 and the loop would never end
+			break
+		}
 	}
 	return guardianSets, nil
 }
